@@ -8,7 +8,7 @@ import { canon } from '../runtime/canon.mjs';
 export const id = 'C03';
 
 export const HOSTS = ['boundImport', 'unbound', 'member', 'memberHtmlName', 'Teleport'];
-export const SHAPES = ['none', 'identBound', 'identUnbound', 'call', 'arrow', 'fnExpr', 'object', 'text', 'element', 'memberExpr', 'cond', 'mixed1', 'mixed2', 'spread', 'spreadCall', 'spreadThenText', 'nestedComp', 'wsOnly', 'elementWithDirective', 'elementWithVModel', 'litNull', 'litFalse', 'litZeroThenText', 'optMember', 'optMemberDeep', 'template', 'binary', 'newExpr', 'arrayLit', 'logicalOr', 'parenCall', 'awaitLike', 'identOwnLineLF', 'identOwnLineCR', 'callOwnLineCRLF', 'objectOwnLineCR', 'voidCall', 'voidCallThenText'];
+export const SHAPES = ['none', 'identBound', 'identUnbound', 'call', 'arrow', 'fnExpr', 'object', 'text', 'element', 'memberExpr', 'cond', 'mixed1', 'mixed2', 'spread', 'spreadCall', 'spreadThenText', 'nestedComp', 'wsOnly', 'elementWithDirective', 'elementWithVModel', 'litNull', 'litFalse', 'litZeroThenText', 'optMember', 'optMemberDeep', 'template', 'binary', 'newExpr', 'arrayLit', 'logicalOr', 'parenCall', 'awaitLike', 'identOwnLineLF', 'identOwnLineCR', 'callOwnLineCRLF', 'objectOwnLineCR', 'voidCall', 'voidCallThenText', 'identThenSpace', 'callThenSpace', 'spaceOnly', 'identThenNbsp', 'spaceThenIdent'];
 export const KINDS = ['vnode', 'string', 'array', 'slots', 'slotfn', 'number', 'nullish'];
 export const VSLOTS = ['absent', 'ident', 'objLit'];
 export const CONTEXTS = ['arrowExpr', 'moduleLevel', 'fnBody', 'nestedBlock', 'classMethod', 'arrowInArrow', 'arrowParamDefaultExprBody', 'arrowParamDefaultAndBody', 'fnParamDefault'];
@@ -56,6 +56,12 @@ export function makeKids(b, shape, kind, st = { n: 0 }) {
     }
     case 'voidCall': { const f = b.fnGlobal(val); return [{ ...C.expr(b.leaf(`void ${f}()`), `void ${f}()`), shape: 'other' }]; }
     case 'voidCallThenText': { const f = b.fnGlobal(val); return [{ ...C.expr(b.leaf(`void ${f}()`), `void ${f}()`), shape: 'other' }, C.text(' after')]; }
+    // an inline blank is a text child: the host then has mixed children, whatever the identifier / call holds
+    case 'identThenSpace': { const g = b.global(val, { log: false }); return [{ ...C.expr(b.leaf(g), g), shape: 'ident' }, C.text(' ')]; }
+    case 'spaceThenIdent': { const g = b.global(val, { log: false }); return [C.text(' '), { ...C.expr(b.leaf(g), g), shape: 'ident' }]; }
+    case 'identThenNbsp': { const g = b.global(val, { log: false }); return [{ ...C.expr(b.leaf(g), g), shape: 'ident' }, C.text('\u00a0')]; }
+    case 'callThenSpace': { const f = b.fnGlobal(val); return [{ ...C.expr(b.leaf(`${f}()`), `${f}()`), shape: 'call', fn: f }, C.text('  ')]; }
+    case 'spaceOnly': return [C.text(' ')];
     case 'identOwnLineLF': { const g = b.global(val, { log: false }); return [C.text('\n      '), { ...C.expr(b.leaf(g), g), shape: 'ident' }, C.text('\n    ')]; }
     case 'identOwnLineCR': { const g = b.global(val, { log: false }); return [C.text('\r      '), { ...C.expr(b.leaf(g), g), shape: 'ident' }, C.text('\r    ')]; }
     case 'callOwnLineCRLF': { const f = b.fnGlobal(val); return [C.text('\r\n      '), { ...C.expr(b.leaf(`${f}()`), `${f}()`), shape: 'call', fn: f }, C.text('\r\n    ')]; }
@@ -188,7 +194,7 @@ export function buildLoop(host, ctx, vs) {
 }
 
 /** an identifier child whose variable was, earlier, the target of an unrelated `x = <jsx>` assignment */
-export const PRIOR_ASSIGN = ['fnLet', 'moduleReassign', 'fnParamDefault', 'assignedVarNamedSlot', 'selfReassign'];
+export const PRIOR_ASSIGN = ['fnLet', 'moduleReassign', 'fnParamDefault', 'assignedVarNamedSlot', 'selfReassign', 'selfReassignParen', 'selfReassignParen2', 'selfReassignInit'];
 export function buildPriorAssign(host, variant) {
   const b = new ModuleBuilder();
   const tag = hostTag(b, host);
@@ -199,6 +205,10 @@ export function buildPriorAssign(host, variant) {
     case 'moduleReassign': b.thunks.push('let cur = null;', 'cur = <i id="first" />;', `export const t0 = () => ${J};`, 'export const setCur = () => { cur = <i id="second" />; };'); break;
     case 'assignedVarNamedSlot': { const J2 = renderElement({ tag, attrs: [], children: [{ ...C.expr(b.leaf('0'), 'mkFirst()'), shape: 'call' }] }); b.thunks.push('const mkFirst = () => <i id="first" />;', 'let _slot = null;', `export function t0() {\n  _slot = ${J2};\n  return _slot;\n}`, 'export const setCur = () => {};'); break; }
     case 'selfReassign': b.thunks.push('let cur = <i id="first" />;', `export function t0() {\n  cur = ${J};\n  return cur;\n}`, 'export const setCur = () => {};'); break;
+    // the same with the JSX in parentheses (how a formatter writes a multi-line right-hand side)
+    case 'selfReassignParen': b.thunks.push('let cur = <i id="first" />;', `export function t0() {\n  cur = (\n    ${J}\n  );\n  return cur;\n}`, 'export const setCur = () => {};'); break;
+    case 'selfReassignParen2': b.thunks.push('let cur = <i id="first" />;', `export function t0() {\n  return (cur = ((${J})));\n}`, 'export const setCur = () => {};'); break;
+    case 'selfReassignInit': b.thunks.push('let cur = <i id="first" />;', `export function t0() {\n  const r = (cur = ${J});\n  return r;\n}`, 'export const setCur = () => {};'); break;
     case 'fnParamDefault': b.thunks.push(`export function t0(cur = null) {\n  cur = cur || <i id="first" />;\n  const r = ${J};\n  return r;\n}`, 'export const setCur = () => {};'); break;
     default: throw new Error(variant);
   }
@@ -238,7 +248,7 @@ function build(host, shape, kind, vs, ctx) {
   return { src: b.source(), spec: { thunks: [{ name: 't0', el }], env: b.env, ctx, shape, vs } };
 }
 
-const RUNTIME_SHAPES = new Set(['identOwnLineLF', 'identOwnLineCR', 'callOwnLineCRLF', 'identBound', 'identUnbound', 'call', 'cond', 'mixed1', 'mixed2', 'nestedComp', 'optMemberDeep', 'newExpr', 'arrayLit', 'logicalOr', 'parenCall', 'awaitLike']);
+const RUNTIME_SHAPES = new Set(['identThenSpace', 'spaceThenIdent', 'identThenNbsp', 'callThenSpace', 'identOwnLineLF', 'identOwnLineCR', 'callOwnLineCRLF', 'identBound', 'identUnbound', 'call', 'cond', 'mixed1', 'mixed2', 'nestedComp', 'optMemberDeep', 'newExpr', 'arrayLit', 'logicalOr', 'parenCall', 'awaitLike']);
 const OPTS = [];
 for (const enableObjectSlots of [true, false]) for (const optimize of [false, true]) OPTS.push({ enableObjectSlots, optimize });
 // configurations that leave enableObjectSlots out (it defaults to on)
